@@ -32,6 +32,45 @@ fn nonspec_input() -> BoxedStrategy<(Vec<u8>, u8)> {
     ].boxed()
 }
 
+/// (A, R, S) for raw_verify with the pass-through context digest: k = (R + 2^256 A) mod l is chosen.
+/// kind 0: k = target with arbitrary S (rejections, incl. S = 0 and k = 0 together: both scalars of the
+/// double-base multiplication are zero); kind 1: k = 0 and R = compress(S*B), an ACCEPTED signature for every message.
+fn chosen_k() -> BoxedStrategy<Req> {
+    use crate::model::big::{U256, U512};
+    use crate::model::ed::Aff;
+    use crate::model::sc::{self, Sc};
+    let two256 = || Sc::from_u512(&U512::from_parts(&U256::ZERO, &U256::from_u128(1)));
+    let target = prop_oneof![3 => Just(Sc::ZERO), 1 => Just(Sc::ONE), 1 => Just(Sc::ONE.neg()), 1 => scalar_canonical().prop_map(|b| Sc::from_bytes_mod_order(&b))];
+    let svals = prop_oneof![3 => Just([0u8; 32]), 3 => scalar_canonical(), 1 => u256_interesting()];
+    let reject = (edwards_encoding(), target, svals, 0u64..16, message()).prop_map(move |((_, a), k, s, j, m)| {
+        // R = (k - 2^256 A) mod l + j*l, kept below 2^256
+        let r0 = k.sub(&Sc::from_u256(&U256::from_le(&a)).mul(&two256()));
+        let mut r = r0.0;
+        for _ in 0..j {
+            let (x, c) = r.add_c(&sc::l());
+            if c { break; }
+            r = x;
+        }
+        Req::new("tot.verify_chosen_k", vec![a.to_vec(), r.to_le().to_vec(), s.to_vec(), m])
+    });
+    let accept = (prop_oneof![2 => Just([0u8; 32]), 3 => scalar_canonical()], message()).prop_map(move |(s, m)| {
+        let r = Aff::basepoint().mul(&U256::from_le(&s)).compress();
+        // A = -R / 2^256 mod l + j*l for the first j that is a point encoding
+        let a0 = Sc::from_u256(&U256::from_le(&r)).neg().mul(&two256().inv());
+        let mut a = a0.0;
+        let mut enc = a.to_le();
+        for _ in 0..16 {
+            enc = a.to_le();
+            if Aff::decompress(&enc).is_some() { break; }
+            let (x, c) = a.add_c(&sc::l());
+            if c { break; }
+            a = x;
+        }
+        Req::new("tot.verify_chosen_k", vec![enc.to_vec(), r.to_vec(), s.to_vec(), m])
+    });
+    prop_oneof![2 => reject, 1 => accept].boxed()
+}
+
 /// every entry point that consumes untrusted bytes (public API only: runs in release builds)
 pub fn strategy(release: bool) -> BoxedStrategy<Req> {
     let mut v: Vec<(u32, BoxedStrategy<Req>)> = vec![
@@ -63,6 +102,7 @@ pub fn strategy(release: bool) -> BoxedStrategy<Req> {
         (4, super::c16::de_strategy().boxed()),
         (3, super::c16::raw_strategy().boxed()),
         (2, super::c17::encoding_strategy().boxed()),
+        (2, chosen_k()),
     ];
     if release {
         v.push((2, (edwards_encoding(), message(), u512_interesting(), prop::sample::select(vec![256usize, 257, 300, 512, 1000]).prop_flat_map(|n| vec(any::<u8>(), n)))
@@ -83,6 +123,11 @@ pub fn classify(req: &Req, resp: &Resp) -> Vec<&'static str> {
         }
         "tot.nonspec_map" => l.push(if req.a[1][0] == 1 { "chosen-elligator-input" } else { "hashed-elligator-input" }),
         "tot.verify_longctx" => l.push("over-long-context"),
+        "tot.verify_chosen_k" => {
+            l.push("chosen-challenge-verification");
+            if *resp == Resp::Ok(vec![1]) { l.push("chosen-challenge-k=0-accepted"); }
+            if req.a[2].iter().all(|x| *x == 0) { l.push("chosen-challenge-S=0"); }
+        }
         "sig.batch" => l.push("batch"),
         "sig.verify" => l.push("verify-arbitrary"),
         "sd.de" | "sd.raw" => l.push("deserialiser"),
@@ -93,7 +138,7 @@ pub fn classify(req: &Req, resp: &Resp) -> Vec<&'static str> {
     l
 }
 
-pub const RULE: &str = "every public entry point that consumes untrusted bytes, in release builds (what users run): slice decoders for byte strings of every length 0..100 and longer, array decoders, hash-to-group / hash-to-scalar with SHA-512 and a pass-through digest (chosen r incl. solved-for exceptional inputs of both Elligator maps), X25519 and the Montgomery/Edwards conversions, all verification functions on adversarial and arbitrary triples incl. contexts longer than 255 bytes, batch verification on arbitrary and mismatched input, keypair import, the serde deserialisers on structured and raw payloads, GroupEncoding; oracle: never a panic, and None/Err exactly where the models of C03/C06/C07/C09/C13/C16/C17 say malformed; non-trivial = a rejected input, a wrong-length slice, a chosen Elligator input, an over-long context, or an adversarial verification/batch/deserialiser case";
+pub const RULE: &str = "every public entry point that consumes untrusted bytes, in release builds (what users run): slice decoders for byte strings of every length 0..100 and longer, array decoders, hash-to-group / hash-to-scalar with SHA-512 and a pass-through digest (chosen r incl. solved-for exceptional inputs of both Elligator maps), X25519 and the Montgomery/Edwards conversions, all verification functions on adversarial and arbitrary triples incl. contexts longer than 255 bytes, batch verification on arbitrary and mismatched input, hazmat::raw_verify with a caller-chosen context digest (chosen challenge k = 0, 1, l-1 with S = 0 or arbitrary, incl. accepted k = 0 signatures), keypair import, the serde deserialisers on structured and raw payloads, GroupEncoding; oracle: never a panic, and None/Err exactly where the models of C03/C06/C07/C09/C13/C16/C17 say malformed; non-trivial = a rejected input, a wrong-length slice, a chosen Elligator input, an over-long context, or an adversarial verification/batch/deserialiser case";
 
 pub fn oracle(req: &Req, got: &Resp) -> Result<(), String> {
     if let Resp::Panic(m) = got {
